@@ -168,7 +168,9 @@ def env_vars(seed):
     return {"COLUMNS": str(r.choice((1, 4, 5, 20, 80, 400))), "LINES": str(r.choice((1, 3, 24, 200))),
             "TERM": r.choice(("dumb", "xterm", "")), "TMPDIR": r.choice(("/simfs/tmp", "/nonexistent", "/tmp")),
             "HOME": r.choice(("/", "/nonexistent", "/simfs/home")), "TZ": r.choice(("UTC", "JST-9", "PST8PDT")),
-            "LANG": r.choice(("C", "POSIX", "C.UTF-8", "en_US.UTF-8")), "NO_COLOR": r.choice(("", "1"))}
+            "LANG": r.choice(("C", "POSIX", "C.UTF-8", "en_US.UTF-8")), "NO_COLOR": r.choice(("", "1")),
+            # the encoding of the text layer of stdout/stderr (messages only; images are bytes)
+            "PYTHONIOENCODING": r.choice(("utf-8", "ascii", "latin-1", "utf-8"))}
 
 
 def env_valid(tool, env):
@@ -253,7 +255,8 @@ def simulate(tool, opts, data: bytes, env: Env, damaged=(), boundaries=(), budge
     w = World(stdin_data=data if use_stdin else None, stdin_file=redirect, stdin_sched=sin, stdout_sched=sout,
               stdin_damaged=damaged if use_stdin else (), vcwd=VCWD_OF_PROCESS,
               stdout_unbuffered=env.unbuf, environ=env_vars(env.envseed),
-              tty=TTY_OF_PROCESS or bool(env.envseed and env.envseed % 5 == 0))
+              tty=TTY_OF_PROCESS or bool(env.envseed and env.envseed % 5 == 0),
+              stdout_encoding=env_vars(env.envseed).get("PYTHONIOENCODING", "utf-8"))
     with w:
         if env.in_kind == "fifo":
             w.fs.fifos[w._vpath(inp, writing=True)] = (bytes(data), sin, list(damaged))
